@@ -55,7 +55,8 @@ let sres_str = function SOk -> "ok" | SErrTooMuch -> "err:toomuch" | SPanic -> "
 let parse_sched (s : string) : rditem list =
   let items = split_ws s in
   let one f =
-    if f = "-" then [] else if f = "!" then [ (RIgn, 1) ] else
+    if f = "-" then [] else if f.[String.length f - 1] = '!' then
+      [ (RIgn (if f = "!" then N0 else n_of_dec (String.sub f 0 (String.length f - 1))), 1) ] else
     match String.index_opt f '*' with
     | Some i -> [ (RReq (n_of_dec (String.sub f 0 i)), int_of_string (String.sub f (i+1) (String.length f - i - 1))) ]
     | None -> [ (RReq (n_of_dec f), 1) ] in
